@@ -195,7 +195,13 @@ static pid_t process_fork(const int *except, size_t num_except)
     pipe_destroy(pipe.write);
 
     int child_errno = 0;
-    q = (int) read(pipe.read, &child_errno, sizeof(child_errno));
+
+    // A signal handler of the caller (SIGCHLD when the child exits, for
+    // example) must not make us miss the child's error report.
+    do {
+      q = (int) read(pipe.read, &child_errno, sizeof(child_errno));
+    } while (q < 0 && errno == EINTR);
+
     ASSERT_UNUSED(q >= 0);
 
     if (child_errno > 0) {
@@ -466,7 +472,13 @@ int process_start(pid_t *process,
   pipe.write = pipe_destroy(pipe.write);
 
   int child_errno = 0;
-  r = (int) read(pipe.read, &child_errno, sizeof(child_errno));
+
+  // A signal handler of the caller (SIGCHLD when the child exits, for example)
+  // must not make us miss the child's error report.
+  do {
+    r = (int) read(pipe.read, &child_errno, sizeof(child_errno));
+  } while (r < 0 && errno == EINTR);
+
   ASSERT_UNUSED(r >= 0);
 
   if (child_errno > 0) {
